@@ -85,7 +85,7 @@ func (f *fz) feed(si int, gen string, raw []byte, in rfix.Ingress) {
 
 	var procOK bool
 	if p, st := mon.Try(func() { _, procOK = udpip.VerifComputeProcID(raw, 4, 0x9e3779b9) }); p != nil {
-		f.violation("C08:panic:"+mon.PanicSite(st), fmt.Sprintf("computeProcID panicked: %v", p),
+		f.violation("C08:panic:"+panicFunc(st), fmt.Sprintf("computeProcID panicked: %v", p),
 			mkWitness(s, v, gen, raw, in, &rfix.Result{Panic: fmt.Sprint(p), Stack: st}))
 		cls("panic")
 		return
@@ -105,7 +105,7 @@ func (f *fz) feed(si int, gen string, raw []byte, in rfix.Ingress) {
 	cls(out)
 	f.a.event("outcome:" + out)
 	if res.Panic != "" {
-		f.violation("C08:panic:"+mon.PanicSite(res.Stack), "router packet processing panicked: "+res.Panic,
+		f.violation("C08:panic:"+panicFunc(res.Stack), "router packet processing panicked: "+res.Panic,
 			mkWitness(s, v, gen, raw, in, &res))
 		return
 	}
@@ -204,7 +204,7 @@ func (f *fz) internalProcess(si int, gen string, raw []byte, in rfix.Ingress) st
 	p := f.stunPkt
 	var err error
 	if pv, st := mon.Try(func() { _, err = udpip.VerifInternalProcess(link, p) }); pv != nil {
-		f.violation("C08:panic:"+mon.PanicSite(st), fmt.Sprintf("internal link packet processing panicked: %v", pv),
+		f.violation("C08:panic:"+panicFunc(st), fmt.Sprintf("internal link packet processing panicked: %v", pv),
 			mkWitness(s, v, gen, raw, in, &rfix.Result{Panic: fmt.Sprint(pv), Stack: st}))
 		return "panic"
 	}
@@ -480,7 +480,7 @@ func checkC08(r *mon.Run) {
 		"the router is driven through the verif export wrappers (no behaviour added); rfix.Star.Process mirrors runProcessor/runSlowPathProcessor",
 		"inputs for which computeProcID fails never reach a packet processor in the real receive path and are judged on the path they do take",
 		"the SCION version nibble of an emitted packet is not part of the statement and is not judged",
-		"a process-fatal error (checkptr, concurrent map access) kills the child: the driver reports it; the last input of every worker is in logs/C08.lastinput.bin",
+		"a process-fatal error (checkptr, concurrent map access) kills the child: the driver reports it; the last input of every worker is in logs/C08.<tier>.lastinput.bin",
 	}
 	if rp := r.ReplayFile(); rp != "" {
 		replayC08(r, rp)
